@@ -71,6 +71,7 @@ structure Entry where
   cap          : CapC := .absent
   lockKeyEmpty : Bool := false
   lockIdEmpty  : Bool := false
+  lockHeld     : Bool := false   -- the business-lock key of a `Lock` request is held by another caller (the request has to wait)
   telemetryOff : Bool := true
   engine       : Eng  := .ok
   deriving DecidableEq, Repr, Inhabited
@@ -88,7 +89,7 @@ inductive Atom where
   | nameEmpty | nameInvalid | notExist | notExistChk
   | keysNil | keysLen0 | keysEmptyNN | key0Empty
   | kvNil | keyInvalid | fromNeg | incZero | opsEmpty | metaNil | patchesEmpty | capErr | bodyCapErr
-  | lockKeyEmpty | lockIdEmpty | telemetryOff
+  | lockKeyEmpty | lockIdEmpty | lockHeld | telemetryOff
   deriving DecidableEq, Repr, Inhabited
 
 inductive Cond where
@@ -188,6 +189,7 @@ def atomEval (cx : Ctx) (e : Entry) : Atom → Option Bool
   | .bodyCapErr   => some (e.cap == .badMax || e.cap == .noFilter || e.cap == .badBody)
   | .lockKeyEmpty => some e.lockKeyEmpty
   | .lockIdEmpty  => some e.lockIdEmpty
+  | .lockHeld     => some e.lockHeld
   | .telemetryOff => some e.telemetryOff
 
 def condEval (cx : Ctx) (e : Entry) : Cond → Option Bool
@@ -366,7 +368,7 @@ def atomOf : String → Option Atom
   | "keyInvalid" => some .keyInvalid | "fromNeg" => some .fromNeg
   | "incZero" => some .incZero | "opsEmpty" => some .opsEmpty | "metaNil" => some .metaNil
   | "patchesEmpty" => some .patchesEmpty | "capErr" => some .capErr | "bodyCapErr" => some .bodyCapErr
-  | "lockKeyEmpty" => some .lockKeyEmpty | "lockIdEmpty" => some .lockIdEmpty
+  | "lockKeyEmpty" => some .lockKeyEmpty | "lockIdEmpty" => some .lockIdEmpty | "lockHeld" => some .lockHeld
   | "telemetryOff" => some .telemetryOff
   | _ => none
 
